@@ -223,6 +223,10 @@ def run(tier):
     ]
     for (bdesc, b), output in itertools.product(behaviours, ["none", "new", "existing"]):
         cases.append({"group": "behaviour", "bdesc": bdesc, "one_of": False, "by_url": False, "auth": None, "headers": [], "output": output, "behaviour": b})
+        if output != "none":
+            # the same with --output written relative to the working directory
+            cases.append({"group": "behaviour", "bdesc": bdesc, "one_of": False, "by_url": False, "auth": None, "headers": [], "output": output, "behaviour": b,
+                          "relative_output": True})
     full = ("HTTP/1.1 200 OK\r\ncontent-type: application/json\r\ncontent-length: %d\r\nconnection: close\r\n\r\n" % len(schemas["small"][1].encode())).encode() + schemas["small"][1].encode()
     outputs_for_cut = ["existing"] if tier == "quick" else ["existing", "new", "none"]
     for output in outputs_for_cut:
@@ -240,7 +244,7 @@ def run(tier):
         outp = None
         if c["output"] != "none":
             outp = os.path.join(root, "schema.json")
-            argv += ["--output", outp]
+            argv += ["--output", "schema.json" if c.get("relative_output") else outp]   # (the command runs with cwd = root)
             if c["output"] == "existing":
                 with open(outp, "wb") as f:
                     f.write(SENTINEL)
@@ -271,7 +275,7 @@ def run(tier):
     conformance = []
     for c, r in zip(cases, results):
         label = {"group": c["group"], "flags": {"is_one_of": c["one_of"], "specify_by_url": c["by_url"], "authorization": c["auth"], "headers": c["headers"], "no_ssl": bool(c.get("no_ssl"))},
-                 "output": c["output"], "server": c.get("bdesc", "200 small schema")}
+                 "output": c["output"] + (" (relative path)" if c.get("relative_output") else ""), "server": c.get("bdesc", "200 small schema")}
         distinct.add(json.dumps(label, sort_keys=True))
         models = [header_model(h) for h in c["headers"]]
         refused_by_cli = any(m is None for m in models)
